@@ -204,6 +204,9 @@ def _expand(histories):
 DEFAULT_STATE_CAP = 400000
 
 
+ABORT = None       # optional callable: a module sets it while a side process of its own may report a violation
+
+
 def explore(ctx, h, leg, max_depth, dedup=True, max_states=DEFAULT_STATE_CAP, case_extra=None, procs=1, clone=False):
     """BFS to ``max_depth`` (or to the fixpoint if the frontier empties first).
 
@@ -235,13 +238,24 @@ def explore(ctx, h, leg, max_depth, dedup=True, max_states=DEFAULT_STATE_CAP, ca
     level = 0
     while frontier and not capped and not aborted:
         level += 1
+        if ABORT is not None and ABORT():
+            aborted = True        # a leg running next to this one (see c01) has found a violation: stop at this level
+            break
         if procs > 1 and len(frontier) >= 4 * procs:
             n = min(procs, len(frontier))
             size = max(1, len(frontier) // (n * 4))
             slices = [frontier[i:i + size] for i in range(0, len(frontier), size)]
             mp = multiprocessing.get_context('fork')
-            with ProcessPoolExecutor(max_workers=n, mp_context=mp) as ex:
-                results = list(ex.map(_expand, slices))
+            ex = ProcessPoolExecutor(max_workers=n, mp_context=mp)
+            try:
+                results = []
+                for res in ex.map(_expand, slices):
+                    results.append(res)
+                    if ABORT is not None and ABORT():
+                        aborted = True          # (see ABORT) the rest of this level is dropped
+                        break
+            finally:
+                ex.shutdown(wait=True, cancel_futures=True)
         else:
             results = [_expand(frontier)]
         nxt = []
